@@ -285,11 +285,14 @@ class Gen:
         base = {"path": ["petId", "order_id", "slug", "itemKey"], "query": ["limit", "pageSize", "sort-by", "q", "include_deleted", "since"],
                 "header": ["X-Request-Id", "X-Trace", "If-Match", "x-api-version"], "cookie": ["session", "csrf_token"]}[loc]
         name = base[idx % len(base)]
-        kinds = ["string", "integer"] if loc == "path" else ["string", "integer", "boolean", "array_string", "date", "enum_ref"]
+        kinds = ["string", "integer"] if loc == "path" else ["string", "integer", "boolean", "array_string", "date", "enum_ref",
+                                                             "number", "uuid", "datetime", "array_integer", "enum_inline", "array_enum_ref"]
+        if loc == "path" and r.random() < 0.25:
+            kinds = ["uuid", "enum_inline", "number"]
         if loc in ("header", "cookie"):
             kinds = ["string", "integer"]
         k = r.choice(kinds)
-        if k == "enum_ref" and not self.enums():
+        if k in ("enum_ref", "array_enum_ref") and not self.enums():
             k = "string"
         required = True if loc == "path" else r.random() < 0.3
         if k == "string":
@@ -302,6 +305,19 @@ class Gen:
             sch = {"type": "array", "items": {"type": "string"}}
         elif k == "date":
             sch = {"type": "string", "format": "date"}
+        elif k == "number":
+            sch = {"type": "number"}
+        elif k == "uuid":
+            sch = {"type": "string", "format": "uuid"}
+        elif k == "datetime":
+            sch = {"type": "string", "format": "date-time"}
+        elif k == "array_integer":
+            sch = {"type": "array", "items": {"type": "integer"}}
+        elif k == "enum_inline":
+            sch = {"type": "string", "enum": ["asc", "desc", "by-name"]}
+        elif k == "array_enum_ref":
+            t = r.choice(self.enums())
+            sch = {"type": "array", "items": ref(t)}
         else:
             t = r.choice(self.enums())
             sch = ref(t)
@@ -315,6 +331,8 @@ class Gen:
         e = {"name": name, "in": loc, "required": required, "kind": k}
         if k == "enum_ref":
             e["target"] = sch["$ref"].split("/")[-1]
+        if k == "array_enum_ref":
+            e["target"] = sch["items"]["$ref"].split("/")[-1]
         self.features.add(f"param_{loc}")
         self.features.add(f"paramkind_{k}")
         return p, e
@@ -462,9 +480,13 @@ class Gen:
                     "schema": {"type": "object", "properties": {"file": {"type": "string", "format": "binary"}}}}}}
                 body_exp = {"media": "multipart/form-data", "required": breq}
             else:
-                op["requestBody"] = {"required": breq, "content": {"application/octet-stream": {
-                    "schema": {"type": "string", "format": "binary"}}}}
-                body_exp = {"media": "application/octet-stream", "required": breq}
+                # bodies the caller passes as raw bytes: binary, and JSON-flavoured media types the generator does not serialise
+                media = r.choice(["application/octet-stream", "application/octet-stream", "application/pdf", "text/csv",
+                                  "application/vnd.api+json", "application/json; charset=utf-8"])
+                sch = {"type": "string", "format": "binary"} if "json" not in media else {"type": "object"}
+                op["requestBody"] = {"required": breq, "content": {media: {"schema": sch}}}
+                body_exp = {"media": media, "required": breq}
+                self.features.add("raw_body_media_" + media.split("/")[1].split(";")[0].replace("+", "_").replace(".", "_").replace("-", "_"))
             if kind == "json" and r.random() < self.prof.get("p_multi_media", 0.0):
                 extra = r.choice(["multipart/form-data", "application/x-www-form-urlencoded"])
                 op["requestBody"]["content"][extra] = {"schema": {"type": "object", "properties": {
@@ -509,7 +531,11 @@ class Gen:
             self.features.add(f"stream_{kind}")
         else:
             sch, e = self.response_schema()
-            responses[primary] = {"description": "ok", "content": {"application/json": {"schema": sch}}}
+            jm = "application/json"
+            if self.prof.get("json_media_variants") and r.random() < 0.3:
+                jm = r.choice(["application/vnd.api+json", "application/json; charset=utf-8", "application/problem+json", "application/hal+json"])
+                self.features.add("json_media_variant")
+            responses[primary] = {"description": "ok", "content": {jm: {"schema": sch}}}
             rexp[primary] = {"content": "json", "schema": e}
         is_stream = rexp.get(primary, {}).get("content") in ("sse", "binary", "ndjson")
         if is_stream and "stream_with_secondary_2xx" in self.allow:
